@@ -138,6 +138,11 @@ def run(ctx):
         w = [e for e in p.events if e.kind == "WRITE" and e["stream"] == STREAM]
         ok = ok and len(w) == 1 and N.mk_cmp("==", w[0]["length"], ea) in p.guards()
     ctx.ob("C05.R2", fi, ok, "Transformed._build writes exactly encodeamount bytes when it is an integer (else StreamError)", key="Transformed build")
+    # RestreamData (parse side documented asymmetric, frozen above): building emits nothing, and that is what _sizeof must answer
+    fi, paths = own_method_paths(ctx, "RestreamData", "_sizeof")
+    fb, bpaths = own_method_paths(ctx, "RestreamData", "_build")
+    silent = bool(bpaths) and not any(e.kind in ("WRITE", "RAWIO", "SUB", "READ", "SEEK") for p in bpaths for e in p.events)
+    ctx.ob("C05.R2", fi, silent and bool(paths) and all(p.returns and p.retval == N.const(0) for p in paths), "RestreamData._build leaves the stream alone and _sizeof answers 0", key="RestreamData sizeof")
     # ProcessXor / ProcessRotateLeft: build writes len(data) with data of the scratch stream's length (byte-wise maps)
     for cls in ("ProcessXor", "ProcessRotateLeft"):
         fi, paths = own_method_paths(ctx, cls, "_build")
